@@ -292,6 +292,15 @@ pub fn run_c08(ctx: &Ctx) -> (Report, String) {
         for (w, h) in [(176, 144), (352, 288), (320, 240), (351, 287), (353, 289), (640, 480)] {
             extra.push((w, h));
         }
+        // boundary-value ladder: one dimension around powers of two up to 2^17, the other tiny
+        for d in [8191usize, 8192, 8193, 16383, 16385, 32767, 32769, 65534, 65535, 65536, 65537, 131071, 131073] {
+            for s in [1usize, 2, 3] {
+                extra.push((d, s));
+                extra.push((s + 3, d));
+            }
+        }
+        extra.push((1024, 1024));
+        extra.push((2047, 1025));
         if ctx.tier == Tier::Thorough {
             for (w, h) in [(1408, 1152), (1407, 1151), (1409, 3), (705, 577)] {
                 extra.push((w, h));
